@@ -171,7 +171,7 @@ theorem buildFp_some (s : State) (hs : SInvW s) (length : Nat) (hl : length ≤ 
 /-- **the fingerprint of such a text** is made of `1` and `n` (and possibly empty slots), nothing was
 counted as a `#`/`--` comment -/
 theorem fingerprint_txt (input : Bytes) (flags : Nat) (hq : NoQ (sqliInit input flags).flags) (htxt : Txt input) :
-    ∃ st, fingerprint input flags = .ok st ∧ (∀ c ∈ st.fingerprint, c = 0 ∨ c = 49 ∨ c = 110 ∨ c = 118) ∧
+    ∃ st, fingerprint input flags = .ok st ∧ (∀ c ∈ st.fingerprint, c = 0 ∨ c = 49 ∨ c = 110 ∨ c = 118 ∨ c = 44 ∨ c = 63 ∨ c = 58) ∧
       st.ddx = 0 ∧ st.hash = 0 := by
   obtain ⟨n, s', hfold, hn5, hs', hb, hd, hh, _⟩ := fold_txt input flags hq htxt
   unfold fingerprint
@@ -184,11 +184,14 @@ theorem fingerprint_txt (input : Bytes) (flags : Nat) (hq : NoQ (sqliInit input 
       simp only [ht, bind, Except.bind, pure, Except.pure]
       have hbt := hb t (List.mem_of_getElem? hget)
       have : (t.cat == 110 && t.strOpen == 96 && t.len == 0 && t.strClose == 0) = false := by
-        rcases hbt with e | e | e | e
+        rcases hbt with e | e | e | e | e | e | e
         · simp [e]
         · simp [e]
         · have : (t.len == 0) = false := by simp; omega
           simp [this]
+        · simp [e]
+        · simp [e]
+        · simp [e]
         · simp [e]
       simp only [this, Bool.false_eq_true, ↓reduceIte]
     · rw [if_neg hn2]; rfl
@@ -196,7 +199,7 @@ theorem fingerprint_txt (input : Bytes) (flags : Nat) (hq : NoQ (sqliInit input 
   simp only []
   have h88 : ∀ t ∈ s'.tv, t.cat ≠ 88 := by
     intro t ht
-    rcases (hb t ht).cats with e | e | e | e <;> (rw [e]; decide)
+    rcases (hb t ht).cats with e | e | e | e | e | e | e <;> (rw [e]; decide)
   rw [buildFp_some s' hs'.weak n (by omega) h88 8 0 [] (by omega)]
   simp only []
   refine ⟨_, rfl, ?_, hd, hh⟩
@@ -226,24 +229,34 @@ theorem pass_txt (input : Bytes) (flags : Nat) (hq : NoQ (sqliInit input flags).
   simp only [hck, hrp]
   exact ⟨_, rfl⟩
 
-theorem txt_bytes : ∀ {r : Bytes}, Txt r → ∀ c ∈ r, isWordByteB c = true ∨ c = 32 ∨ c = 64 ∨ c = 46
+theorem txt_bytes : ∀ {r : Bytes}, Txt r → ∀ c ∈ r, isWordByteB c = true ∨ isSepByte c = true ∨ c = 46
   | _, .nil, c, hc => by cases hc
   | _, .space hr, c, hc => by
     rcases List.mem_cons.mp hc with rfl | h
     · exact Or.inr (Or.inl rfl)
     · exact txt_bytes hr c h
-  | _, .wordAt (w := w) hw hr, c, hc => by
+  | _, .punct hp hr, c, hc => by
+    rcases List.mem_cons.mp hc with rfl | h
+    · rcases hp with rfl | rfl <;> exact Or.inr (Or.inl rfl)
+    · exact txt_bytes hr c h
+  | _, .colon hr, c, hc => by
+    rcases List.mem_cons.mp hc with rfl | h
+    · exact Or.inr (Or.inl rfl)
+    · rcases List.mem_cons.mp h with rfl | h
+      · exact Or.inr (Or.inl rfl)
+      · exact txt_bytes hr c h
+  | _, .wordAt (w := w) hw _ hr, c, hc => by
     rcases List.mem_append.mp hc with h | h
     · exact Or.inl (List.all_eq_true.mp (goodWord_bytes hw).1 c h)
     · exact txt_bytes hr c h
   | _, .dec (w := w) hw _ hr, c, hc => by
     rcases List.mem_append.mp hc with h | h
-    · obtain ⟨d1, d2, rfl, ⟨_, hall1⟩, ⟨_, hall2⟩⟩ := hw
+    · obtain ⟨d1, d2, rfl, ⟨_, hall1⟩, hall2⟩ := hw
       rcases List.mem_append.mp h with h | h
       · have := List.all_eq_true.mp hall1 c h
         exact Or.inl (by simp [isWordByteB, this])
       · rcases List.mem_cons.mp h with rfl | h
-        · exact Or.inr (Or.inr (Or.inr rfl))
+        · exact Or.inr (Or.inr rfl)
         · have := List.all_eq_true.mp hall2 c h
           exact Or.inl (by simp [isWordByteB, this])
     · exact txt_bytes hr c h
@@ -251,24 +264,24 @@ theorem txt_bytes : ∀ {r : Bytes}, Txt r → ∀ c ∈ r, isWordByteB c = true
     rcases List.mem_append.mp hc with h | h
     · rcases (dotted_bytes hw).1 c h with h' | h'
       · exact Or.inl h'
-      · exact Or.inr (Or.inr (Or.inr h'))
+      · exact Or.inr (Or.inr h')
     · exact txt_bytes hr c h
-  | _, .dottedAt (w := w) hw hr, c, hc => by
+  | _, .dottedAt (w := w) hw _ hr, c, hc => by
     rcases List.mem_append.mp hc with h | h
     · rcases (dotted_bytes hw).1 c h with h' | h'
       · exact Or.inl h'
-      · exact Or.inr (Or.inr (Or.inr h'))
+      · exact Or.inr (Or.inr h')
     · exact txt_bytes hr c h
   | _, .var (vw := vw) hv _ hr, c, hc => by
     rcases List.mem_cons.mp hc with rfl | h
-    · exact Or.inr (Or.inr (Or.inl rfl))
+    · exact Or.inr (Or.inl rfl)
     · rcases List.mem_append.mp h with h | h
       · have := List.all_eq_true.mp (varBody_bytes hv).1 c h
         unfold isVarBodyByte at this
         simp only [Bool.or_eq_true, beq_iff_eq] at this
         rcases this with h' | h'
         · exact Or.inl h'
-        · exact Or.inr (Or.inr (Or.inr h'))
+        · exact Or.inr (Or.inr h')
       · exact txt_bytes hr c h
   | _, .word (w := w) hw _ hr, c, hc => by
     rcases List.mem_append.mp hc with h | h
@@ -291,13 +304,12 @@ theorem isSQLi_txt (input : Bytes) (htxt : Txt input) : isSQLi input = .ok (fals
       have : indexByte input q = none := by
         rw [indexByte_none_iff]
         intro hm
-        rcases txt_bytes htxt q hm with h | h | h | h
+        rcases txt_bytes htxt q hm with h | h | h
         · have := wordByte_facts q h
           rcases hq with rfl | rfl
           · exact this.2.2.2.1 rfl
           · revert h; decide
-        · rcases hq with rfl | rfl <;> cases h
-        · rcases hq with rfl | rfl <;> cases h
+        · rcases hq with rfl | rfl <;> revert h <;> decide
         · rcases hq with rfl | rfl <;> cases h
       simp [this]
     simp only [hp, Bool.false_eq_true, ↓reduceIte, gated, noPass, hnoq 39 (Or.inl rfl), hnoq 34 (Or.inr rfl),
